@@ -321,6 +321,14 @@ def _complete(data):
     return True, data
 
 
+def _first_diff(a, b):
+    i = 0
+    n = min(len(a), len(b))
+    while i < n and a[i] == b[i]:
+        i += 1
+    return a[max(0, i - 40) : i + 40], b[max(0, i - 40) : i + 40]
+
+
 def _shapes(se, svg):
     return [r for r in ob.observe_doc(se, svg, keep_path=True, rendered_stroke=True) if "geom" in r]
 
@@ -396,6 +404,22 @@ def execute(case, se, out, trace):
         out.count("skip:source-geometry-unobservable")
         return
     kinds = sorted(set(r["cls"] for r in cur_obs))
+    # writing is an observer: it must leave the tree as it was, and say the same thing when asked again
+    try:
+        t1 = cur.string_xml()
+        obs_after = _shapes(se, cur)
+        t2 = cur.string_xml()
+    except Exception as e:
+        if core.is_harness_exc(e):
+            raise
+        raise V("write-raises", [type(e).__name__, core.exc_sig(e)[1], "string"], "string_xml() of generation 0 raised %r" % e)
+    try:
+        compare_generations(se, cur_obs, obs_after, 0.0, V, "write-mutates", "the tree before and after string_xml()")
+    except core.Violation as v:
+        raise V("write-mutates", v.sig, v.detail)
+    if t1 != t2:
+        raise V("write-not-repeatable", ["string"], "two consecutive string_xml() calls on the same tree differ: %r ... vs %r ..." % (_first_diff(t1, t2)))
+    out.count("probe:write-twice-compared")
     fault = case["fault"]
     out.count("fault:" + fault["kind"] if fault["kind"] != "none" else "fault:none-scheduled")
     trace.ev("gen0", case["source"], len(cur_obs))
